@@ -56,7 +56,11 @@ RULE_ADDED = (
               'on SGX too. '
               ' '
               'Round 16: the SGX peer closing the connection right after taking the unlock comm'
-              'and. ')
+              'and. '
+              ' '
+              'Round 17: a uiHeartbeat after which the device is found locked in the bootloader'
+              ' and is no device the bring-up would accept; unsafe devices after a reconnection'
+              ' on SGX too. ')
 RULE = RULE + " " + RULE_ADDED.strip()
 ASSUMPTIONS = [
     "simulated device + fake transports trusted",
@@ -356,6 +360,9 @@ def run_config(acc, c, tmpdir, live=False):
         if served and not live and c["platform"] == "ledger" and \
                 zlib.crc32(key.encode()) % 2 == 0:
             unsafe_after_reconnection(acc, c, s, dev, bad, v1)
+        elif served and not live and c["platform"] == "ledger" and not v1 and \
+                zlib.crc32(key.encode()) % 4 == 1:
+            heartbeat_back_in_the_bootloader(acc, c, s, dev, bad)
         elif served and not live and c["platform"] == "sgx" and c["mode"] == "boot" and \
                 zlib.crc32(key.encode()) % 2 == 0:
             # (the same on SGX, for the unsafe devices that platform can present; the link
@@ -367,6 +374,48 @@ def run_config(acc, c, tmpdir, live=False):
             acc.sample({"config": c, "served": served, "unlock_commands": n_unlock,
                         "outcome": repr(exc) if exc else "initialize_device returned",
                         "apdu_cmds": [("%02x" % e["apdu"][1]) for e in apdus if e["apdu"]]})
+
+
+def heartbeat_back_in_the_bootloader(acc, c, s, dev, bad):
+    """the manager is serving; a uiHeartbeat leaves the signer and, when it is over, the
+    device is found locked in the bootloader - and it is no device the bring-up would accept
+    (not onboarded any more, or one whose signer is of an unsupported version).  No PIN goes
+    to the one, no request is served from the other."""
+    from ..gen import der as _der
+    rng = random.Random(zlib.crc32(json.dumps(c, sort_keys=True).encode()) ^ 0x77)
+    dev.uihb = {"signature": _der.make_sig(rng, "normal")[0],
+                "message": b"HSM:UI:HB:" + bytes(40), "tweak": bytes(32), "pubkey": bytes(65)}
+    dev.cfg["hb_back_mode"] = MODE_BOOTLOADER
+    dev.cfg["echo_ok"] = True
+    dev.cfg["ui_version"] = (5, 4, 1)
+    dev.cfg["unlock_result"] = True
+    dev.cfg["post_exit_mode"] = None
+    dev.retries = 3
+    how = rng.choice(["not-onboarded", "signer-version"])
+    acc.count("heartbeats_after_which_an_unsafe_device_is_in_the_bootloader")
+    mark = len(s.bus.events)
+    seen_hb = {"done": False}
+
+    def hook(bus, apdu):
+        # (the device changes while it is in the heartbeat app)
+        if len(apdu) > 1 and apdu[1] == 0x60 and not seen_hb["done"]:
+            seen_hb["done"] = True
+            if how == "not-onboarded":
+                dev.onboarded = False
+            else:
+                dev.cfg["signer_version"] = rng.choice([(5, 5, 0), (6, 0, 0), (4, 4, 1)])
+    s.bus.exchange_hook = hook
+    r, e, _ = s.request({"command": "uiHeartbeat", "version": 5, "udValue": "33" * 32})
+    s.bus.exchange_hook = None
+    sent = [ev["apdu"][1] for ev in s.bus.apdus(mark) if ev["apdu"] is not None]
+    if how == "not-onboarded" and (0x41 in sent or 0xFE in sent):
+        return bad("pin-or-unlock-sent-without-precondition:not-onboarded:after-a-heartbeat")
+    if e is not None:
+        return
+    r2, e2, _ = s.request({"command": "blockchainParameters", "version": 5})
+    if how == "signer-version" and e2 is None and isinstance(r2, dict) and \
+            r2.get("errorcode") == 0 and (0x41 in sent or 0xFE in sent):
+        return bad("served-from-unsafe-state:signer-version:after-a-heartbeat")
 
 
 def unsafe_after_reconnection(acc, c, s, dev, bad, v1=False, sgx=False):
